@@ -20,3 +20,8 @@ def check(repo, rep, tier):
     rep.run(rf.rule_visitor_dispatch, em, rep, 'C10.G4')
     rep.run(rf.rule_cli_exit, em, rep, 'C10.G5', lc or [])
     rep.run(rf.rule_rejections_not_swallowed, em, rep, 'C10.G6', g)
+    rep.run(rf.rule_entries_always_run_pipeline, em, rep, 'C10.G7')
+    # what is outside the lexicon must reach the lexer: a lenient decoder removes it before any listener can object
+    from .. import rules_compile as rc
+    from .. import rules_emit as re_
+    rep.run(re_.rule_codecs_strict, rc.CompilerModel(repo), rep, 'C10.G8')
